@@ -171,7 +171,11 @@ theorem C03_serialize_message_fits (d : DictFn) (bs : Bytes) (m : Msg) (h : deco
 
 /-- regenerated facts: every type the dictionary loader accepts has a decoder; constants -/
 theorem C03_gen : Gen.HeaderLength = 20 ∧ Gen.Vbit = 128 ∧
-    (Gen.available.all (fun p => Gen.decoderKeys.contains p.2)) = true := by decide
+    (Gen.available.all (fun p => Gen.decoderKeys.contains p.2)) = true ∧
+    -- every reader type goes through readHeader and readBody, whose first statement rejects a
+    -- declared length below the header's (`C03_short_length_rejected`)
+    Gen.readMessageCalls = ["readHeader", "readBody"] ∧
+    Gen.readBodyGuard = "(m.Header.MessageLength<HeaderLength)" := by decide
 
 /-! ### resources -/
 
